@@ -209,7 +209,7 @@ def gen_qspecs(rng):
         elif k == 1:
             rs.append([1, x, y, w, h, rng.randrange(0, 30), rng.randrange(0, 20)])
         elif k in (2, 3):
-            lim = 65536 if k == 2 else 256
+            lim = 300 if k == 2 else 256          # (canvases of 65536 columns make Pillow, not the check, slow)
             subs = [[_px(rng), rng.choice([0, 1, 3, lim - 1]), rng.choice([0, 2, lim - 1]), rng.choice([0, 1, 4]), rng.choice([0, 1, 2])]
                     for _ in range(rng.choice([0, 0, 1, 3, 6]))]
             rs.append([k, x, y, w, h, _px(rng), subs])
